@@ -1217,12 +1217,13 @@ func (s *State) evalStringInfixExpression(operator token.Type, left, right objec
 	switch {
 	case operator == token.PLUS && right.Type() == object.STRING:
 		rightVal := right.(object.String).Value
+		object.MustBeOk((len(leftVal) + len(rightVal)) / object.ObjectSize) // s = s + s in a loop doubles each time.
 		return object.String{Value: leftVal + rightVal}
 	case operator == token.ASTERISK && rightIsInt:
-		n := len(leftVal) * int(rightVal)
 		if rightVal < 0 {
 			return s.Errorf("right operand of * on strings must be a positive integer, got %d", rightVal)
 		}
+		n := object.MulSize(len(leftVal), int(rightVal))
 		object.MustBeOk(n / object.ObjectSize)
 		return object.String{Value: strings.Repeat(leftVal, int(rightVal))}
 	default:
@@ -1243,7 +1244,10 @@ func (s *State) evalArrayInfixExpression(operator token.Type, left, right object
 		if rightVal < 0 {
 			return s.NewError("right operand of * on arrays must be a positive integer")
 		}
-		result := object.MakeObjectSlice(len(leftVal) * int(rightVal))
+		result := object.MakeObjectSlice(object.MulSize(len(leftVal), int(rightVal)))
+		if len(leftVal) == 0 {
+			return object.NewArray(result) // nothing to repeat (and no need to loop rightVal times).
+		}
 		for range rightVal {
 			result = append(result, leftVal...)
 		}
